@@ -126,6 +126,7 @@ func main() {
 	cases = append(cases, keygenCases(e)...)
 	cases = append(cases, ptyCases(e)...)
 	cases = append(cases, terminalEnvironments(e)...)
+	cases = append(cases, terminalLargeTexts(e)...)
 	cases = append(cases, specialOutputs(e)...)
 	cases = append(cases, specialInputs(e)...)
 	r.Set("planned_process_runs_lower_bound", len(cases))
